@@ -35,6 +35,9 @@ structure SpecSt where
   claimedFiles : List Path := []
   claimedSubs : List H := []
   inProg : List Path := []
+  /-- what the running functions have written into their targets so far (newest first): an output
+      joins the tree only when its function returns — atomic by construction -/
+  pending : List (Path × String × Nat) := []
   outputs : List Path := []
   createdDirs : List Path := []
   invLog : List Inv := []          -- newest first
@@ -51,13 +54,16 @@ namespace Spec
 def visible (s : SpecSt) : FS :=
   (s.inProg.foldl (fun fs p => fs.erase p) s.fs).erase s.cacheFile
 
-/-- `_dirs_to_make`: the missing ancestors of `d` (outermost first), or why they cannot be made -/
-def dirsToMake (vfs : FS) (cf : Path) (d : Path) : Except OSErr (List Path) :=
+/-- `_dirs_to_make`: the missing ancestors of `d` (outermost first), or why they cannot be made.
+    `blocked`: targets whose function is running — the documented obligation forbids building below
+    them; the model refuses (the harness discards such programs, see `obligation`). -/
+def dirsToMake (vfs : FS) (cf : Path) (blocked : List Path) (d : Path) : Except OSErr (List Path) :=
   if hd : d = [] then .ok []
   else if vfs.isDir d then .ok []
   else if vfs.isFile d then .error .notADir
   else if d = cf then .error .notADir
-  else match dirsToMake vfs cf d.dropLast with
+  else if blocked.contains d then .error .notADir
+  else match dirsToMake vfs cf blocked d.dropLast with
     | .error e => .error e
     | .ok r => .ok (r ++ [d])
 termination_by d.length
@@ -84,7 +90,7 @@ def bfSetup (s : SpecSt) (path : Path) : Except Exc (SpecSt × List Path) :=
   if s.claimedFiles.contains path then .error (.runtime .dupFile)
   else if path = s.cacheFile then .error (.runtime .cacheTarget)
   else if s.fs.isDir path then .error (.os .isADir)
-  else match dirsToMake (visible s) s.cacheFile path.dropLast with
+  else match dirsToMake (visible s) s.cacheFile s.inProg path.dropLast with
     | .error e => .error (.os e)
     | .ok ds =>
       if s.failFiles.contains path then .error (.os .other) else
@@ -95,22 +101,27 @@ def bfSetup (s : SpecSt) (path : Path) : Except Exc (SpecSt × List Path) :=
       .ok ({ s with fs := fs2, claimedFiles := path :: s.claimedFiles, inProg := path :: s.inProg,
                     obligation := s.obligation || bad }, ds)
 
+def pendingFind (pending : List (Path × String × Nat)) (p : Path) : Option (String × Nat) :=
+  match pending.find? (fun x => x.1 = p) with
+  | some (_, b, m) => some (b, m)
+  | none => none
+
 /-- what happens when the function of `build_file path` has returned `r` -/
 def bfFinish (s : SpecSt) (path : Path) (made : List Path) (r : CallRes) : CallRes × SpecSt :=
-  let s := { s with inProg := s.inProg.erase path }
+  let written := pendingFind s.pending path
+  let s := { s with inProg := s.inProg.erase path, pending := s.pending.filter (fun x => x.1 ≠ path) }
   let fail (e : Exc) : CallRes × SpecSt :=
-    let fs1 := if s.fs.isFile path then s.fs.erase path else s.fs
-    let fs2 := rmEmpty fs1 made
+    let fs2 := rmEmpty s.fs made
     (.error e, { s with fs := fs2, createdDirs := (made.filter fs2.isDir) ++ s.createdDirs })
   match r with
   | .error e => fail e
   | .ok j =>
-    if s.fs.isFile path then
-      (.ok j, { s with outputs := path :: s.outputs, createdDirs := made ++ s.createdDirs })
-    else fail (.runtime .notCreated)
+    match written with
+    | some (b, m) =>
+      (.ok j, { s with fs := s.fs.set path (.file b m), outputs := path :: s.outputs,
+                       createdDirs := made ++ s.createdDirs })
+    | none => fail (.runtime .notCreated)
 
-/-- run a build function from scratch.  `target` is the file the innermost enclosing
-    `build_file` body is responsible for writing. -/
 def statusOf : CallRes → String
   | .ok _ => "ok"
   | .error _ => "raised"
@@ -124,13 +135,14 @@ def run : Prog → Option Path → SpecSt → CallRes × SpecSt × List CallNode
   | .query q k, t, s => run (k (View.answer s.dirSize (visible s) q)) t s
   | .write b k, t, s =>
     match t with
-    | some p => run k t { s with fs := s.fs.write p b s.clock, clock := s.clock + 1 }
+    | some p => run k t { s with pending := (p, b, s.clock) :: s.pending, clock := s.clock + 1 }
     | none => run k t s
   | .buildFile path _ fname args kwargs body k, t, s =>
     match bfSetup s path with
     | .error e =>
       -- an injected fault fires once
       let s := if e = .os .other then { s with failFiles := s.failFiles.erase path } else s
+      let s := { s with obligation := s.obligation || s.inProg.any (fun c => properAncestor c path) }
       let (r, s', tr) := run (k (.error e)) t s
       (r, s', .mk fname (some path) args kwargs ("setup:" ++ e.cls) [] :: tr)
     | .ok (s1, made) =>
@@ -213,7 +225,7 @@ def build (w : World) (cf : Path) (buildName : String) (root : Prog)
     let fs0 := preClean w.fs cf old
     let s0 : SpecSt := { fs := fs0, cacheFile := cf, dirSize := w.dirSize, clock := w.clock,
                          failFiles := failFiles, failSubs := failSubs }
-    match (if abort = 1 then .error .other else dirsToMake (visible s0) cf cf.dropLast) with
+    match (if abort = 1 then .error .other else dirsToMake (visible s0) cf [] cf.dropLast) with
     | .error e =>
       { res := .error (.os e),
         world := { w with fs := mkdirs w.fs (old.createdDirs.mergeSort (fun a b => a.length ≤ b.length)) } }
